@@ -500,31 +500,15 @@ where
 /// the guards travel to T2. Then, concurrently: T3 starts (claims the released node) and loads,
 /// W stores, T2 uses and drops the guards. `order`: what main does with the container at the end.
 pub fn guard_life<S: Strat>(g: usize, with_writer: bool) {
+    rt::set_context_tag("C10");
     let c = Cont::<S>::new(0, V::new(1));
     let fil = filler::<S>();
-    // phase 1: T1 alone
-    let t1 = {
-        let (c, fil) = (c.clone(), fil.clone());
-        rt::spawn(move || {
-            let h = prologue(&fil, false);
-            let mut guards: Vec<Guard<V, S>> = Vec::new();
-            rt::quiet(|| {
-                for _ in 0..g {
-                    guards.push(c.sw.load());
-                }
-            });
-            release(h);
-            guards
-        })
-    };
-    let guards = rt::quiet(|| t1.join()).unwrap_or_default();
-    let shared: Rc<RefCell<Vec<Guard<V, S>>>> = Rc::new(RefCell::new(guards));
-    world::node_count();
-    // phase 2
+    let shared: Rc<RefCell<Vec<Guard<V, S>>>> = Rc::new(RefCell::new(Vec::new()));
+    // T2 (user of the guards) and W own their debt nodes before the creator T1 exits, so nobody
+    // adopts T1's node (it still carries the debts of the guards) except the late thread T3.
     let n = 2 + with_writer as usize;
     let t2 = {
-        let shared = shared.clone();
-        let fil = fil.clone();
+        let (shared, fil) = (shared.clone(), fil.clone());
         rt::spawn(move || {
             let h = prologue(&fil, false);
             rt::quiet(|| rt::barrier(n));
@@ -546,21 +530,6 @@ pub fn guard_life<S: Strat>(g: usize, with_writer: bool) {
             promoted
         })
     };
-    let t3 = {
-        let c = c.clone();
-        rt::spawn(move || {
-            // not a quiet prologue: claiming the released node races with the others
-            rt::quiet(|| rt::barrier(n));
-            let a = load(&c);
-            let l = a.peek_label();
-            use_value(&a, l, "guard of a thread that reuses a released node");
-            let b = load(&c);
-            let l2 = b.peek_label();
-            use_value(&b, l2, "second guard");
-            drop_guard(a);
-            drop_guard(b);
-        })
-    };
     let w = if with_writer {
         let (c, fil) = (c.clone(), fil.clone());
         Some(rt::spawn(move || {
@@ -572,20 +541,52 @@ pub fn guard_life<S: Strat>(g: usize, with_writer: bool) {
     } else {
         None
     };
+    // T1 takes the guards, hands them over (the barrier is the hand-over synchronisation) and exits.
+    let t1 = {
+        let (c, fil, shared) = (c.clone(), fil.clone(), shared.clone());
+        rt::spawn(move || {
+            let h = prologue(&fil, false);
+            rt::quiet(|| {
+                let mut guards: Vec<Guard<V, S>> = Vec::new();
+                for _ in 0..g {
+                    guards.push(c.sw.load());
+                }
+                *shared.borrow_mut() = guards;
+            });
+            release(h);
+            rt::quiet(|| rt::barrier(n));
+            // thread exit: the node goes to cooldown with the debts still in its slots
+        })
+    };
+    // T3 never synchronises with T1 after the guards were taken: it starts whenever the
+    // schedule says, claims whatever node is free (T1's once it is released) and loads twice.
+    let t3 = {
+        let c = c.clone();
+        rt::spawn(move || {
+            let a = load(&c);
+            let l = a.peek_label();
+            use_value(&a, l, "guard of a thread that may reuse a released node");
+            let b = load(&c);
+            let l2 = b.peek_label();
+            use_value(&b, l2, "second guard");
+            drop_guard(a);
+            drop_guard(b);
+        })
+    };
     rt::join_all();
     let kept = t2.join().unwrap_or_default();
+    t1.join();
     t3.join();
     if let Some(w) = w {
         w.join();
     }
     let nodes = world::node_count();
-    // Peak number of threads alive at once is 1 + n (main never used the crate before this point).
-    if nodes > n + 1 && !rt::draining() {
-        rt::violation("C11", "nodes", format!("{} debt nodes exist although at most {} threads were ever alive at once", nodes, n + 1));
+    // At most n + 2 threads are ever alive at once (T1, T2, T3 and W).
+    if nodes > n + 2 && !rt::draining() {
+        rt::violation("C11", "nodes", format!("{} debt nodes exist although at most {} threads were ever alive at once", nodes, n + 2));
     }
     epilogue_p(vec![c], fil, kept, true, "C03");
 }
-
 
 // ------------------------------------------------------------------------------------------
 // thread churn (C11)
@@ -761,6 +762,8 @@ pub fn dtor_uses_container<S: Strat>() {
 /// The reader's helping generation counter is preset `ahead` transactions before the wrap; it
 /// then performs `loads` fallback loads while a writer stores (and may help at that moment).
 pub fn wrap<S: Strat>(ahead: usize, loads: usize, fill: bool, with_writer: bool) {
+    // after a wrap-around every other guarantee must keep holding: any failed oracle is a C13 failure too
+    rt::set_context_tag("C13");
     let c = Cont::<S>::new(0, V::new(1));
     let fil = filler::<S>();
     let n = 1 + with_writer as usize;
@@ -828,6 +831,8 @@ pub fn wrap<S: Strat>(ahead: usize, loads: usize, fill: bool, with_writer: bool)
 /// performs on behalf of a reader it helps (nested inside its debt walk) is the wrapping
 /// fallback transaction.
 pub fn wrap_nested<S: Strat>(fill_reader: bool) {
+    // after a wrap-around every other guarantee must keep holding: any failed oracle is a C13 failure too
+    rt::set_context_tag("C13");
     let c = Cont::<S>::new(0, V::new(1));
     let fil = filler::<S>();
     let r = {
@@ -984,7 +989,7 @@ pub fn cas_adv<S: Strat>(fill: bool) {
     rt::join_all();
     let mut kept = w.join().unwrap_or_default();
     kept.extend(t.join().unwrap_or_default());
-    epilogue_p(vec![c], fil, kept, true, "C05");
+    epilogue_p(vec![c], fil, kept, true, "C05,C04");
 }
 
 /// T{rcu(+1)} with W{store 100; store 200} as complete calls in any gaps of the rcu.
@@ -1089,6 +1094,16 @@ where
     let a = Cont::<S>::new(0, V::new(1));
     let b: Arc<arc_swap::ArcSwapAny<V2, S>> = Arc::new(arc_swap::ArcSwapAny::with_strategy(V2::new(2), S::default()));
     let fil = filler::<S>();
+    let w = {
+        let (a, fil) = (a.clone(), fil.clone());
+        rt::spawn(move || {
+            let h = prologue(&fil, false);
+            rt::quiet(|| rt::barrier(2));
+            store(&a, V::new(11));
+            store(&a, V::new(12));
+            release(h);
+        })
+    };
     let r = {
         let (a, b, fil) = (a.clone(), b.clone(), fil.clone());
         rt::spawn(move || {
@@ -1106,16 +1121,6 @@ where
                 rt::violation("C12,C03", "provenance", format!("a load from container B returned value #{} which was never stored in B", lb));
             }
             drop(gb);
-            release(h);
-        })
-    };
-    let w = {
-        let (a, fil) = (a.clone(), fil.clone());
-        rt::spawn(move || {
-            let h = prologue(&fil, false);
-            rt::quiet(|| rt::barrier(2));
-            store(&a, V::new(11));
-            store(&a, V::new(12));
             release(h);
         })
     };
@@ -1290,8 +1295,8 @@ fn order_of(label: u64) -> u64 {
     }
 }
 
-/// W{store #11; store #12; flag.store(Release)} || C{cache.load; if flag.load(Acquire) {cache.load
-/// must be #12}; cache.load}: per-cache monotone in write order, never a foreign identity, and a
+/// W{store #11; flag.store(Release); store #12} || C{cache.load; if flag.load(Acquire) {cache.load
+/// must be #11 or newer, whatever the second store does meanwhile}; cache.load}: per-cache monotone in write order, never a foreign identity, and a
 /// store whose completion happens-before the call is seen.
 pub fn cache_conc<S: Strat>(fill: bool) {
     use arc_swap::cache::Cache;
@@ -1306,8 +1311,8 @@ pub fn cache_conc<S: Strat>(fill: bool) {
             let h = prologue(&fil, false);
             rt::quiet(|| rt::barrier(2));
             store(&c, V::new(11));
-            store(&c, V::new(12));
             flag.store(1, Release);
+            store(&c, V::new(12));
             release(h);
         })
     };
@@ -1332,11 +1337,11 @@ pub fn cache_conc<S: Strat>(fill: bool) {
                     rt::violation("C16", "cache", format!("Cache::load returned value #{} which was never stored in the container", l));
                 } else if o < last {
                     rt::violation("C16", "cache", format!("Cache::load went backwards in the order of writes: returned #{} after a newer value", l));
-                } else if must_be_newest && l != 12 {
+                } else if must_be_newest && o < 1 {
                     rt::violation(
                         "C16",
                         "cache",
-                        format!("Cache::load returned #{} although the completion of store(#12) happens-before the call (release/acquire flag)", l),
+                        format!("Cache::load returned #{} although the completion of store(#11) happens-before the call (release/acquire flag)", l),
                     );
                 }
                 last = o;
@@ -1449,5 +1454,249 @@ pub fn rcu_aba<S: Strat>(fill: bool) {
     rt::join_all();
     let mut kept = w.join().unwrap_or_default();
     kept.extend(t.join().unwrap_or_default());
-    epilogue_p(vec![c], fil, kept, true, "C06");
+    epilogue_p(vec![c], fil, kept, true, "C06,C04");
+}
+
+/// wrap_nested plus a third thread that starts during the race, claims whatever node is free
+/// (possibly the one the writer just discarded in its nested load) and writes, i.e. may help
+/// the same reader with that node's hand-over envelope.
+pub fn wrap_nested3<S: Strat>(fill_reader: bool) {
+    // after a wrap-around every other guarantee must keep holding: any failed oracle is a C13 failure too
+    rt::set_context_tag("C13");
+    let c = Cont::<S>::new(0, V::new(1));
+    let fil = filler::<S>();
+    let r = {
+        let (c, fil) = (c.clone(), fil.clone());
+        rt::spawn(move || {
+            let h = prologue(&fil, fill_reader);
+            rt::quiet(|| rt::barrier(3));
+            for _ in 0..2 {
+                let g = load(&c);
+                let l = g.peek_label();
+                use_value(&g, l, "guard of a reader that may be helped");
+                drop_guard(g);
+            }
+            release(h);
+        })
+    };
+    let w = {
+        let (c, fil) = (c.clone(), fil.clone());
+        rt::spawn(move || {
+            let h = prologue(&fil, true);
+            rt::quiet(|| {
+                arc_swap::verif::set_generation(0usize.wrapping_sub(4));
+                rt::barrier(3);
+            });
+            store(&c, V::new(11));
+            release(h);
+        })
+    };
+    let t3 = {
+        let c = c.clone();
+        rt::spawn(move || {
+            rt::quiet(|| rt::barrier(3));
+            // first use of the crate on this thread: Node::get runs inside the race
+            store(&c, V::new(21));
+            let g = load(&c);
+            let l = g.peek_label();
+            use_value(&g, l, "guard of the late thread");
+            drop_guard(g);
+        })
+    };
+    rt::join_all();
+    r.join();
+    w.join();
+    t3.join();
+    epilogue_p(vec![c], fil, vec![], false, "C03");
+}
+
+/// The reader's own load wraps the generation counter while a thread that has never used the
+/// crate starts: it may claim the node the reader just sent to cooldown and load through it at
+/// once (the reader's helping slot must be free by then).
+pub fn wrap_claim<S: Strat>(fill: bool) {
+    rt::set_context_tag("C13");
+    let c = Cont::<S>::new(0, V::new(1));
+    let fil = filler::<S>();
+    let r = {
+        let (c, fil) = (c.clone(), fil.clone());
+        rt::spawn(move || {
+            let h = prologue(&fil, fill);
+            rt::quiet(|| {
+                arc_swap::verif::set_generation(0usize.wrapping_sub(4));
+                rt::barrier(2);
+            });
+            let res = std::panic::catch_unwind(std::panic::AssertUnwindSafe(|| {
+                for _ in 0..2 {
+                    let g = load(&c);
+                    let l = g.peek_label();
+                    use_value(&g, l, "guard around the generation wrap");
+                    drop_guard(g);
+                }
+            }));
+            if res.is_err() {
+                let msg = rt::take_last_panic().unwrap_or_default();
+                rt::violation("C13", "panic", format!("a load panicked around the generation wrap: {}", msg));
+            }
+            release(h);
+        })
+    };
+    let s = {
+        let c = c.clone();
+        rt::spawn(move || {
+            rt::quiet(|| rt::barrier(2));
+            let res = std::panic::catch_unwind(std::panic::AssertUnwindSafe(|| {
+                // first use of the crate on this thread: Node::get, then loads on every path
+                let v = load_full(&c);
+                let l = v.peek_label();
+                use_value(&v, l, "load_full of a thread that may have claimed a node in cooldown");
+                let mut gs = Vec::new();
+                for _ in 0..SLOTS + 1 {
+                    gs.push(c.sw.load());
+                }
+                for g in &gs {
+                    use_value(g, 1, "guard");
+                }
+                rt::quiet(|| drop(gs));
+                drop_value(v);
+            }));
+            if res.is_err() {
+                let msg = rt::take_last_panic().unwrap_or_default();
+                rt::violation("C13", "panic", format!("a load on a freshly started thread panicked: {}", msg));
+            }
+        })
+    };
+    rt::join_all();
+    r.join();
+    s.join();
+    epilogue_p(vec![c], fil, vec![], false, "C03");
+}
+
+/// Thread churn against the helping protocol: T{fallback load, exit} || W{store} step by step,
+/// S{starts inside the race, first use, fallback load} and W2{store} as one complete call placed
+/// anywhere. If S can claim T's node while W is still inside it, W's stale help (prepared for
+/// T's transaction with the same generation number) lands in S's transaction.
+pub fn churn_help<S: Strat>(fill: bool) {
+    let c = Cont::<S>::new(0, V::new(1));
+    let fil = filler::<S>();
+    let w2 = {
+        let (c, fil) = (c.clone(), fil.clone());
+        rt::spawn(move || {
+            rt::atomic_thread();
+            let h = prologue(&fil, false);
+            rt::quiet(|| rt::barrier(4));
+            store(&c, V::new(21));
+            rt::call_boundary();
+            release(h);
+        })
+    };
+    let w = {
+        let (c, fil) = (c.clone(), fil.clone());
+        rt::spawn(move || {
+            let h = prologue(&fil, false);
+            rt::quiet(|| rt::barrier(4));
+            store(&c, V::new(11));
+            release(h);
+        })
+    };
+    let s = {
+        let (c, fil) = (c.clone(), fil.clone());
+        rt::spawn(move || {
+            rt::quiet(|| rt::barrier(4));
+            // no prologue: Node::get happens here, inside the race
+            let mut held = Vec::new();
+            if fill {
+                for _ in 0..SLOTS {
+                    held.push(fil.sw.load());
+                }
+            }
+            // two loads: the second one reuses the generation number the exited thread used last
+            for _ in 0..2 {
+                let g = load(&c);
+                let l = g.peek_label();
+                use_value(&g, l, "guard of the late thread");
+                drop_guard(g);
+            }
+            rt::quiet(|| drop(held));
+        })
+    };
+    let t = {
+        let (c, fil) = (c.clone(), fil.clone());
+        rt::spawn(move || {
+            let h = prologue(&fil, fill);
+            rt::quiet(|| rt::barrier(4));
+            let g = load(&c);
+            let l = g.peek_label();
+            use_value(&g, l, "guard of the exiting thread");
+            drop_guard(g);
+            release(h);
+            // thread exit (cooldown) follows at once
+        })
+    };
+    rt::join_all();
+    w2.join();
+    w.join();
+    s.join();
+    t.join();
+    epilogue_p(vec![c], fil, vec![], false, "C11,C03");
+}
+
+/// A projection guard outlives the thread that created it and is used on another thread while a
+/// writer replaces the value (C17 with the C10 life cycle).
+pub fn map_life<S: Strat>() {
+    use arc_swap::access::{Access, Map};
+    rt::set_context_tag("C17");
+    let c = Cont::<S>::new(0, V::new(1));
+    let fil = filler::<S>();
+    type MG<S> = <Map<&'static arc_swap::ArcSwapAny<V, S>, V, fn(&V) -> &V> as Access<V>>::Guard;
+    let slot: Rc<RefCell<Option<MG<S>>>> = Rc::new(RefCell::new(None));
+    // Writer and user start first and own their debt nodes before the creator of the guard
+    // exits, so nobody adopts the creator's node (which still carries the guard's debt).
+    let w = {
+        let (c, fil) = (c.clone(), fil.clone());
+        rt::spawn(move || {
+            let h = prologue(&fil, false);
+            rt::quiet(|| rt::barrier(3));
+            store(&c, V::new(11));
+            release(h);
+        })
+    };
+    let user = {
+        let (fil, slot) = (fil.clone(), slot.clone());
+        rt::spawn(move || {
+            let h = prologue(&fil, false);
+            rt::quiet(|| rt::barrier(3));
+            let g = slot.borrow_mut().take().expect("harness bug: no guard");
+            for i in 0..2 {
+                let got = g.peek_label();
+                let read = g.get();
+                if (got != 1 || read != 1) && !rt::draining() {
+                    rt::violation("C17", "snapshot", format!("a projection guard taken on value #1 does not read #1 at deref {} on another thread", i + 1));
+                }
+            }
+            rt::call_begin("drop(MapGuard)", "C09", DROP_CAP);
+            drop(g);
+            rt::call_end();
+            release(h);
+        })
+    };
+    let t1 = {
+        let (c, fil, slot) = (c.clone(), fil.clone(), slot.clone());
+        rt::spawn(move || {
+            let h = prologue(&fil, false);
+            let c2: &'static Cont<S> = unsafe { &*(Arc::as_ptr(&c)) };
+            let f: fn(&V) -> &V = |v| v;
+            let m = Map::new(&c2.sw, f);
+            let g = rt::quiet(|| Access::load(&m));
+            *slot.borrow_mut() = Some(g);
+            release(h);
+        })
+    };
+    rt::quiet(|| {
+        t1.join();
+        rt::barrier(3);
+    });
+    rt::join_all();
+    w.join();
+    user.join();
+    epilogue_p(vec![c], fil, vec![], false, "C17");
 }
